@@ -32,6 +32,12 @@ theorem next_cons {pb : PB} {b : UInt8} {l : List UInt8} (h : L ptn pb = b :: l)
     congr 2
   · unfold L; exact h2
 
+theorem L_head {pb : PB} {b : UInt8} {l : List UInt8} (h : L ptn pb = b :: l) : ptn[pb.i]? = some b := by
+  unfold L at h
+  have : (ptn.toList.drop pb.i)[0]? = some b := by rw [h]; rfl
+  rw [List.getElem?_drop] at this
+  simpa using this
+
 theorem next_nil {pb : PB} (h : L ptn pb = []) : next ptn pb = .error .malformed := by
   unfold L at h
   have := List.drop_eq_nil_iff.mp h
@@ -138,7 +144,7 @@ theorem beq_comm_u8 (a b : UInt8) : (a == b) = (b == a) := by
 
 /-- the set loop: `unionLoop` (with its one byte of look-ahead `b`) against `parseSetElems` -/
 theorem unionLoop_refines (neg : Bool) : ∀ (fuelS : Nat) (l : List UInt8) (acc es : List SetElem) (rest : List UInt8),
-    LuaPattern.parseSetElems fuelS l acc = .ok (es, rest) → (∀ e ∈ es, ascending e) →
+    LuaPattern.parseSetElems fuelS l acc = .ok (es, rest) →
     (∀ e ∈ acc, e ∈ es) ∧
     ∀ (b : UInt8) (pb : PB) (s : ByteSet) (fuelM : Nat), l = b :: L ptn pb → pb.i ≤ ptn.size →
       (∀ c, s.contains c = acc.any (·.matches c)) → ptn.size + 1 ≤ fuelM + pb.i →
@@ -148,7 +154,7 @@ theorem unionLoop_refines (neg : Bool) : ∀ (fuelS : Nat) (l : List UInt8) (acc
   induction fuelS with
   | zero => intro l acc es rest h; rw [LuaPattern.parseSetElems.eq_1] at h; cases h
   | succ f ih =>
-    intro l acc es rest h hasc
+    intro l acc es rest h
     cases l with
     | nil => rw [LuaPattern.parseSetElems.eq_2] at h; cases h
     | cons b0 l0 =>
@@ -198,7 +204,7 @@ theorem unionLoop_refines (neg : Bool) : ∀ (fuelS : Nat) (l : List UInt8) (acc
                   simp only at h
                   exact ⟨.ch bx, h, fun c => by rw [hr2]; rfl⟩
               obtain ⟨el, hkey, hel⟩ := key
-              obtain ⟨hsub, hstep⟩ := ih l1 (el :: acc) es rest hkey hasc
+              obtain ⟨hsub, hstep⟩ := ih l1 (el :: acc) es rest hkey
               refine ⟨fun e he => hsub e (List.mem_cons_of_mem _ he), ?_⟩
               intro b pb s fuelM hl hpi hs hf
               injection hl with hb hl
@@ -231,7 +237,7 @@ theorem unionLoop_refines (neg : Bool) : ∀ (fuelS : Nat) (l : List UInt8) (acc
                 ∃ pb' sf, unionLoop ptn neg fuelM b s pb = .ok (sf, pb') ∧ L ptn pb' = rest ∧ pb.i ≤ pb'.i ∧
                   pb'.i ≤ ptn.size ∧ ∀ c, sf.contains c = ((es.any (·.matches c)) != neg) := by
             intro b1 l1 hl0 hb1 hk
-            obtain ⟨hsub, hstep⟩ := ih l0 (.ch b0 :: acc) es rest hk hasc
+            obtain ⟨hsub, hstep⟩ := ih l0 (.ch b0 :: acc) es rest hk
             refine ⟨fun e he => hsub e (List.mem_cons_of_mem _ he), ?_⟩
             intro b pb s fuelM hl hpi hs hf
             injection hl with hb hl
@@ -318,8 +324,7 @@ theorem unionLoop_refines (neg : Bool) : ∀ (fuelS : Nat) (l : List UInt8) (acc
                   · simp [hy37] at h
                   · -- a range `b0-y2`
                     simp only [hy37, Bool.false_eq_true, if_false] at h
-                    obtain ⟨hsub, hstep⟩ := ih l3 (.range b0 y2 :: acc) es rest h hasc
-                    have hrange : b0 ≤ y2 := hasc _ (hsub _ (List.mem_cons_self))
+                    obtain ⟨hsub, hstep⟩ := ih l3 (.range b0 y2 :: acc) es rest h
                     refine ⟨fun e he => hsub e (List.mem_cons_of_mem _ he), ?_⟩
                     intro b pb s fuelM hl hpi hs hf
                     injection hl with hb hl
@@ -334,7 +339,7 @@ theorem unionLoop_refines (neg : Bool) : ∀ (fuelS : Nat) (l : List UInt8) (acc
                       obtain ⟨fm, rfl⟩ : ∃ fm, fuelM = fm + 1 := ⟨fuelM - 1, by omega⟩
                       have := hstep b3 { pb with i := pb.i + 1 + 1 + 1 } (s.merge (ByteSet.byteRange b0 y2)) fm
                         (by rw [hL3]) (by simp; omega) (fun c => by
-                          rw [ByteSet.contains_merge, hs, ByteSet.contains_byteRange_ascending b0 y2 c hrange]
+                          rw [ByteSet.contains_merge, hs, ByteSet.contains_byteRange b0 y2 c]
                           simp only [List.any_cons, LuaPattern.SetElem.matches]
                           rw [Bool.or_comm]) (by simp; omega)
                       obtain ⟨pb', sf, h1, h2, h3, h4, h5⟩ := this
@@ -368,7 +373,7 @@ def unionBody (neg : Bool) (pb1 : PB) : B (ByteSet × PB) := do
   unionLoop ptn neg (ptn.size + 2) b s pb
 
 theorem setBody_refines (fuelS : Nat) (neg : Bool) (p : List UInt8) (cls : Cls) (rest : List UInt8)
-    (hspec : LuaPattern.parseSetBody fuelS neg p = .ok (cls, rest)) (hasc : AscCls cls) (pb1 : PB) (hp : L ptn pb1 = p)
+    (hspec : LuaPattern.parseSetBody fuelS neg p = .ok (cls, rest)) (pb1 : PB) (hp : L ptn pb1 = p)
     (hpi1 : pb1.i ≤ ptn.size) :
     ∃ pb' set, unionBody ptn neg pb1 = .ok (set, pb') ∧
       L ptn pb' = rest ∧ pb1.i < pb'.i ∧ pb'.i ≤ ptn.size ∧ ∀ c, set.contains c = cls.matches c := by
@@ -406,7 +411,7 @@ theorem setBody_refines (fuelS : Nat) (neg : Bool) (p : List UInt8) (cls : Cls) 
         | cons b2 r2 =>
           obtain ⟨hn2, hL2, hlt2⟩ := next_cons ptn hL1
           simp only at hlt2
-          obtain ⟨_, hstep⟩ := unionLoop_refines ptn neg fuelS (b2 :: r2) [.ch 93] es rest' hps hasc
+          obtain ⟨_, hstep⟩ := unionLoop_refines ptn neg fuelS (b2 :: r2) [.ch 93] es rest' hps
           obtain ⟨pb', sf, h1, h2, h3, h4, h5⟩ := hstep b2 { pb1 with i := pb1.i + 1 + 1 } (ByteSet.empty.add 93)
             (ptn.size + 2) (by rw [hL2]) (by simp; omega) (fun c => by
               rw [ByteSet.contains_add, ByteSet.contains_empty]
@@ -430,7 +435,7 @@ theorem setBody_refines (fuelS : Nat) (neg : Bool) (p : List UInt8) (cls : Cls) 
         simp only [Except.map] at hk
         injection hk with hk; injection hk with hc hr
         subst hc; subst hr
-        obtain ⟨_, hstep⟩ := unionLoop_refines ptn neg fuelS (b0 :: r) [] es rest' hps hasc
+        obtain ⟨_, hstep⟩ := unionLoop_refines ptn neg fuelS (b0 :: r) [] es rest' hps
         obtain ⟨pb', sf, h1, h2, h3, h4, h5⟩ := hstep b0 { pb1 with i := pb1.i + 1 } ByteSet.empty
           (ptn.size + 2) (by rw [hL1]) (by simp; omega) (fun c => by
             rw [ByteSet.contains_empty]; rfl) (by simp; omega)
@@ -456,7 +461,7 @@ theorem getUnion_eq (pb : PB) : getUnion ptn pb = (do
 
 /-- `[ … ]` : the builder's `getUnion` against the Spec's `parseSet` (both start after the `[`) -/
 theorem getUnion_refines (fuelS : Nat) (l : List UInt8) (cls : Cls) (rest : List UInt8)
-    (h : LuaPattern.parseSet fuelS l = .ok (cls, rest)) (hasc : AscCls cls) (pb : PB) (hl : L ptn pb = l)
+    (h : LuaPattern.parseSet fuelS l = .ok (cls, rest)) (pb : PB) (hl : L ptn pb = l)
     (hpi : pb.i ≤ ptn.size) :
     ∃ pb' set, getUnion ptn pb = .ok (set, pb') ∧ L ptn pb' = rest ∧ pb.i < pb'.i ∧ pb'.i ≤ ptn.size ∧
       ∀ c, set.contains c = cls.matches c := by
@@ -474,7 +479,7 @@ theorem getUnion_refines (fuelS : Nat) (l : List UInt8) (cls : Cls) (rest : List
     by_cases h94 : a = 94
     · subst h94
       simp only at h
-      obtain ⟨pb', set, h1, h2, h3, h4, h5⟩ := setBody_refines ptn fuelS true r cls rest h hasc
+      obtain ⟨pb', set, h1, h2, h3, h4, h5⟩ := setBody_refines ptn fuelS true r cls rest h
         { pb with i := pb.i + 1 } hL0 (by simp; omega)
       refine ⟨pb', set, ?_, h2, by simp at h3; omega, h4, h5⟩
       simp only [bind, Except.bind, hn0, show ((94 : UInt8) == 94) = true from by decide, if_true]
@@ -483,14 +488,14 @@ theorem getUnion_refines (fuelS : Nat) (l : List UInt8) (cls : Cls) (rest : List
         split at h
         · rename_i r' heq; injection heq with e1 _; exact absurd e1 h94
         · exact h
-      obtain ⟨pb', set, h1, h2, h3, h4, h5⟩ := setBody_refines ptn fuelS false (a :: r) cls rest h' hasc pb hl hpi
+      obtain ⟨pb', set, h1, h2, h3, h4, h5⟩ := setBody_refines ptn fuelS false (a :: r) cls rest h' pb hl hpi
       refine ⟨pb', set, ?_, h2, h3, h4, h5⟩
       simp only [bind, Except.bind, hn0, beq_eq_false_iff_ne.mpr h94, Bool.false_eq_true, if_false]
       exact h1
 
 /-- a single-character class: `getCharClass` against `parseClass` -/
 theorem getCharClass_refines (fuelS : Nat) (l : List UInt8) (cls : Cls) (rest : List UInt8)
-    (h : LuaPattern.parseClass fuelS l = .ok (cls, rest)) (hasc : AscCls cls) (pb : PB) (hl : L ptn pb = l)
+    (h : LuaPattern.parseClass fuelS l = .ok (cls, rest)) (pb : PB) (hl : L ptn pb = l)
     (hpi : pb.i ≤ ptn.size) :
     ∃ pb' set, getCharClass ptn pb = .ok (set, pb') ∧ L ptn pb' = rest ∧ pb.i < pb'.i ∧ pb'.i ≤ ptn.size ∧
       ∀ c, set.contains c = cls.matches c := by
@@ -538,7 +543,7 @@ theorem getCharClass_refines (fuelS : Nat) (l : List UInt8) (cls : Cls) (rest : 
         · subst h91
           simp only [show ((91 : UInt8) == 91) = true from by decide, if_true]
           rw [LuaPattern.parseClass.eq_5] at h
-          obtain ⟨pb', set, h1, h2, h3, h4, h5⟩ := getUnion_refines ptn fuelS r cls rest h hasc
+          obtain ⟨pb', set, h1, h2, h3, h4, h5⟩ := getUnion_refines ptn fuelS r cls rest h
             { pb with i := pb.i + 1 } hL0 (by simp; omega)
           exact ⟨pb', set, h1, h2, by simp at h3; omega, h4, h5⟩
         · have e91 : (a == 91) = false := beq_eq_false_iff_ne.mpr h91
@@ -751,7 +756,7 @@ theorem L_emit (pb : PB) (x : PItem) : L ptn (emit pb x) = L ptn pb := rfl
 
 /-- the single-character item path of `getPatternItem` (`getCharClass`, `finishSingle`) -/
 theorem single_refines (fuelS : Nat) (l : List UInt8) (cls : Cls) (rest' : List UInt8)
-    (hcls : LuaPattern.parseClass fuelS l = .ok (cls, rest')) (hasc : AscCls cls) (pb : PB) (hl : L ptn pb = l)
+    (hcls : LuaPattern.parseClass fuelS l = .ok (cls, rest')) (pb : PB) (hl : L ptn pb = l)
     (hpi : pb.i ≤ ptn.size) :
     ∃ pb' set, (do
         let (s, pb) ← getCharClass ptn pb
@@ -761,7 +766,7 @@ theorem single_refines (fuelS : Nat) (l : List UInt8) (cls : Cls) (rest' : List 
       (∀ c, set.contains c = cls.matches c) ∧
       pb'.ciMax = pb.ciMax ∧ pb'.cStack = pb.cStack ∧ pb'.anchorLeft = pb.anchorLeft ∧
       pb'.anchorRight = pb.anchorRight := by
-  obtain ⟨pb1, set, h1, h2, h3, h4, h5⟩ := getCharClass_refines ptn fuelS l cls rest' hcls hasc pb hl hpi
+  obtain ⟨pb1, set, h1, h2, h3, h4, h5⟩ := getCharClass_refines ptn fuelS l cls rest' hcls pb hl hpi
   have hf : Frame pb pb1 := getCharClass_frame ptn pb pb1 set h1
   obtain ⟨pb2, g1, g2, g3, g4, g5, g6, g7, g8, g9⟩ := finishSingle_refines ptn set pb1 h4 (by omega)
   unfold Frame at hf
@@ -809,10 +814,233 @@ theorem L_nil_iff {pb : PB} : L ptn pb = [] ↔ ptn.size ≤ pb.i := by
 theorem L_length (pb : PB) : (L ptn pb).length = ptn.size - pb.i := by
   unfold L; simp
 
+/-- one Spec step `(l, st) ↦ (l', st')` is matched by one `getPatternItem` -/
+def ItemStep (l l' : List UInt8) (st st' : LuaPattern.PState) : Prop :=
+  ∀ (pb : PB), L ptn pb = l → (pb.i = 0 → l.head? ≠ some 94) → StRel st pb →
+    ∃ pb', getPatternItem ptn pb = .ok pb' ∧ L ptn pb' = l' ∧ pb.i < pb'.i ∧ pb'.i ≤ ptn.size ∧ StRel st' pb' ∧
+      pb'.anchorLeft = pb.anchorLeft
+
+theorem item_pos (st : LuaPattern.PState) (r2 : List UInt8) (hmaxc : ¬ (st.ncap + 1 > LuaPattern.maxCaptures)) :
+    ItemStep ptn (40 :: 41 :: r2) r2 st { st with items := .pos (st.ncap + 1) :: st.items, ncap := st.ncap + 1 } := by
+  intro pb hl hcaret hrel
+  obtain ⟨hn0, hL0, hlt0⟩ := next_cons ptn hl
+  obtain ⟨hn1, hL1, hlt1⟩ := next_cons ptn (pb := { pb with i := pb.i + 1, ciMax := pb.ciMax + 1 }) hL0
+  simp only at hlt1
+  have hci : pb.ciMax = st.ncap := hrel.ncap
+  have hlt10 : ¬ (pb.ciMax + 1 ≥ 10) := by
+    unfold LuaPattern.maxCaptures at hmaxc; omega
+  refine ⟨emit { pb with i := pb.i + 1 + 1, ciMax := pb.ciMax + 1 }
+    ⟨wordsSet (pb.ciMax + 1) 0, .startCapture⟩, ?_, hL1, by simp [emit]; omega, by simp [emit]; omega, ?_, rfl⟩
+  · unfold getPatternItem
+    simp only [bind, Except.bind, hn0, show ((40 : UInt8) == 94) = false from by decide,
+      show ((40 : UInt8) == 36) = false from by decide, show ((40 : UInt8) == 40) = true from by decide,
+      Bool.false_eq_true, if_false, if_true, hlt10, hn1,
+      show ((41 : UInt8) != 41) = false from by decide, pure, Except.pure]
+  · refine ⟨?_, by simp [emit, hci], by simp [emit]; exact hrel.stack, by simp [emit]; exact hrel.anchorEnd,
+      by unfold LuaPattern.maxCaptures at hmaxc; simp; omega⟩
+    simp only [emit, List.reverse_cons, Array.toList_push]
+    rw [hci]
+    exact RelL.snoc hrel.items (.pos (st.ncap + 1))
+
+theorem item_open (st : LuaPattern.PState) (b2 : UInt8) (r2 : List UInt8) (hb2 : b2 ≠ 41) (hmaxc : ¬ (st.ncap + 1 > LuaPattern.maxCaptures)) :
+    ItemStep ptn (40 :: b2 :: r2) (b2 :: r2) st { st with items := .open (st.ncap + 1) :: st.items, ncap := st.ncap + 1, stack := (st.ncap + 1) :: st.stack } := by
+  intro pb hl hcaret hrel
+  obtain ⟨hn0, hL0, hlt0⟩ := next_cons ptn hl
+  obtain ⟨hn1, hL1, hlt1⟩ := next_cons ptn (pb := { pb with i := pb.i + 1, ciMax := pb.ciMax + 1 }) hL0
+  simp only at hlt1
+  have hci : pb.ciMax = st.ncap := hrel.ncap
+  have hlt10 : ¬ (pb.ciMax + 1 ≥ 10) := by
+    unfold LuaPattern.maxCaptures at hmaxc; omega
+  refine ⟨emit { pb with i := pb.i + 1, ciMax := pb.ciMax + 1, cStack := pb.cStack.push (pb.ciMax + 1) }
+    ⟨wordsSet (pb.ciMax + 1) 0, .startCapture⟩, ?_, hL0, by simp [emit], by simp [emit]; omega, ?_, rfl⟩
+  · unfold getPatternItem
+    simp only [bind, Except.bind, hn0, show ((40 : UInt8) == 94) = false from by decide,
+      show ((40 : UInt8) == 36) = false from by decide, show ((40 : UInt8) == 40) = true from by decide,
+      Bool.false_eq_true, if_false, if_true, hlt10, hn1]
+    have : (b2 != 41) = true := by simp [hb2]
+    simp only [this, if_true]
+    rw [back_ok (by simp)]
+    simp [pure, Except.pure, emit]
+  · refine ⟨?_, by simp [emit, hci], ?_, by simp [emit]; exact hrel.anchorEnd,
+      by unfold LuaPattern.maxCaptures at hmaxc; simp; omega⟩
+    · simp only [emit, List.reverse_cons, Array.toList_push]
+      rw [hci]
+      exact RelL.snoc hrel.items (.open_ (st.ncap + 1))
+    · simp only [emit, Array.toList_push, List.reverse_cons]
+      rw [hrel.stack, hci]
+
+theorem item_close (st : LuaPattern.PState) (n : Nat) (stk : List Nat) (r : List UInt8) (hstk : st.stack = n :: stk) :
+    ItemStep ptn (41 :: r) r st { st with items := .close n :: st.items, stack := stk } := by
+  intro pb hl hcaret hrel
+  obtain ⟨hn0, hL0, hlt0⟩ := next_cons ptn hl
+  have hcs : pb.cStack.toList = stk.reverse ++ [n] := by rw [hrel.stack, hstk]; simp
+  have hsz : pb.cStack.size = stk.length + 1 := by
+    have := congrArg List.length hcs; simpa using this
+  have hlast : pb.cStack[pb.cStack.size - 1]? = some n := by
+    rw [← Array.getElem?_toList, hcs, hsz]
+    simp
+  refine ⟨{ (emit { pb with i := pb.i + 1 } ⟨wordsSet n 0, .endCapture⟩) with
+      cStack := pb.cStack.extract 0 (pb.cStack.size - 1) }, ?_, hL0, by simp [emit], by simp [emit]; omega, ?_, rfl⟩
+  · unfold getPatternItem
+    have hne : ¬ (pb.cStack.size = 0) := by omega
+    simp only [bind, Except.bind, hn0, show ((41 : UInt8) == 94) = false from by decide,
+      show ((41 : UInt8) == 36) = false from by decide, show ((41 : UInt8) == 40) = false from by decide,
+      show ((41 : UInt8) == 41) = true from by decide,
+      Bool.false_eq_true, if_false, if_true, hne, hlast, pure, Except.pure]
+  · refine ⟨?_, by simp [emit]; exact hrel.ncap, ?_, by simp [emit]; exact hrel.anchorEnd, hrel.ncap_le⟩
+    · simp only [emit, List.reverse_cons, Array.toList_push]
+      exact RelL.snoc hrel.items (.close n)
+    · simp only [Array.toList_extract, hsz]
+      simp [hcs]
+
+theorem item_bal (st : LuaPattern.PState) (x y : UInt8) (r4 : List UInt8) :
+    ItemStep ptn (37 :: 98 :: x :: y :: r4) r4 st { st with items := .bal x y :: st.items } := by
+  intro pb hl hcaret hrel
+  obtain ⟨hn0, hL0, hlt0⟩ := next_cons ptn hl
+  obtain ⟨hn1, hL1, hlt1⟩ := next_cons ptn hL0
+  obtain ⟨hn2, hL2, hlt2⟩ := next_cons ptn hL1
+  obtain ⟨hn3, hL3, hlt3⟩ := next_cons ptn hL2
+  simp only at hlt1 hlt2 hlt3
+  refine ⟨emit { pb with i := pb.i + 1 + 1 + 1 + 1 } ⟨wordsSet x.toNat y.toNat, .balanced⟩, ?_, hL3,
+    by simp [emit]; omega, by simp [emit]; omega, ?_, rfl⟩
+  · unfold getPatternItem
+    simp only [bind, Except.bind, hn0, show ((37 : UInt8) == 94) = false from by decide,
+      show ((37 : UInt8) == 36) = false from by decide, show ((37 : UInt8) == 40) = false from by decide,
+      show ((37 : UInt8) == 41) = false from by decide, show ((37 : UInt8) == 37) = true from by decide,
+      Bool.false_eq_true, if_false, if_true, hn1,
+      show ((98 : UInt8) == 102) = false from by decide, show ((98 : UInt8) == 98) = true from by decide,
+      hn2, hn3, pure, Except.pure]
+  · exact hrel.push (.bal x y) rfl rfl rfl rfl
+
+theorem item_frontier (st : LuaPattern.PState) (f : Nat) (r3 rest'' : List UInt8) (c : Cls) (hps : LuaPattern.parseSet f r3 = .ok (c, rest'')) :
+    ItemStep ptn (37 :: 102 :: 91 :: r3) rest'' st { st with items := .frontier c :: st.items } := by
+  intro pb hl hcaret hrel
+  obtain ⟨hn0, hL0, hlt0⟩ := next_cons ptn hl
+  obtain ⟨hn1, hL1, hlt1⟩ := next_cons ptn hL0
+  simp only at hlt1
+  have hpc : LuaPattern.parseClass f (91 :: r3) = .ok (c, rest'') := by
+    rw [LuaPattern.parseClass.eq_5]; exact hps
+  obtain ⟨pb', set, g1, g2, g3, g4, g5⟩ := getCharClass_refines ptn f (91 :: r3) c rest'' hpc
+    { pb with i := pb.i + 1 + 1 } hL1 (by simp; omega)
+  have hfr := getCharClass_frame ptn _ _ _ g1
+  unfold Frame at hfr
+  refine ⟨emit pb' ⟨set, .frontier⟩, ?_, by rw [L_emit]; exact g2, by simp [emit] at g3 ⊢; omega,
+    by simp [emit]; exact g4, ?_, by simp [emit]; rw [hfr]⟩
+  · unfold getPatternItem
+    have h91 := L_head ptn hL1
+    simp only at h91
+    simp only [bind, Except.bind, hn0, show ((37 : UInt8) == 94) = false from by decide,
+      show ((37 : UInt8) == 36) = false from by decide, show ((37 : UInt8) == 40) = false from by decide,
+      show ((37 : UInt8) == 41) = false from by decide, show ((37 : UInt8) == 37) = true from by decide,
+      Bool.false_eq_true, if_false, if_true, hn1,
+      show ((102 : UInt8) == 102) = true from by decide, h91,
+      show ((some (91 : UInt8)) != some 91) = false from by decide, g1, pure, Except.pure]
+  · refine hrel.push (.frontier c set g5) ?_ ?_ ?_ ?_ <;> (simp only [emit]; rw [hfr])
+
+theorem item_backref (st : LuaPattern.PState) (d : UInt8) (r2 : List UInt8) (hd98 : d ≠ 98) (hd102 : d ≠ 102) (hdig : LuaPattern.isDigit d = true)
+    (hbad : ¬ ((d - 48).toNat = 0 ∨ (d - 48).toNat > st.ncap ∨ st.stack.contains (d - 48).toNat = true)) :
+    ItemStep ptn (37 :: d :: r2) r2 st { st with items := .backref (d - 48).toNat :: st.items } := by
+  intro pb hl hcaret hrel
+  obtain ⟨hn0, hL0, hlt0⟩ := next_cons ptn hl
+  obtain ⟨hn1, hL1, hlt1⟩ := next_cons ptn hL0
+  simp only at hlt1
+  have hd19 : isDigit19 d = true := by
+    unfold LuaPattern.isDigit at hdig
+    unfold isDigit19
+    simp only [Bool.and_eq_true, decide_eq_true_eq, ge_iff_le] at hdig ⊢
+    refine ⟨?_, hdig.2⟩
+    have hn0' : ¬ ((d - 48).toNat = 0) := fun e => hbad (Or.inl e)
+    rw [UInt8.le_iff_toNat_le] at hdig ⊢
+    have h48 := hdig.1
+    have hsub : (d - 48).toNat = d.toNat - 48 := by
+      rw [UInt8.toNat_sub_of_le _ _ (UInt8.le_iff_toNat_le.mpr h48)]; rfl
+    have : (48 : UInt8).toNat = 48 := rfl
+    have : (49 : UInt8).toNat = 49 := rfl
+    omega
+  have hchk : checkCapture { pb with i := pb.i + 1 + 1 } (d - 48).toNat = true := by
+    unfold checkCapture
+    have h1 : ¬ ((d - 48).toNat > pb.ciMax) := by
+      rw [hrel.ncap]; exact fun e => hbad (Or.inr (Or.inl e))
+    simp only [h1, if_false]
+    have h2 : st.stack.contains (d - 48).toNat = false := by
+      cases hc : st.stack.contains (d - 48).toNat with
+      | false => rfl
+      | true => exact absurd (Or.inr (Or.inr hc)) hbad
+    have : pb.cStack.contains (d - 48).toNat = st.stack.contains (d - 48).toNat := by
+      rw [← Array.contains_toList, hrel.stack]
+      simp [List.contains_eq_mem, List.mem_reverse]
+    have hcf : pb.cStack.contains (d - 48).toNat = false := by rw [this, h2]
+    simp only [Bool.not_eq_eq_eq_not, Bool.not_true]
+    exact hcf
+  refine ⟨emit { pb with i := pb.i + 1 + 1 } ⟨wordsSet (d - 48).toNat 0, .capture⟩, ?_, hL1,
+    by simp [emit]; omega, by simp [emit]; omega, ?_, rfl⟩
+  · unfold getPatternItem
+    simp only [bind, Except.bind, hn0, show ((37 : UInt8) == 94) = false from by decide,
+      show ((37 : UInt8) == 36) = false from by decide, show ((37 : UInt8) == 40) = false from by decide,
+      show ((37 : UInt8) == 41) = false from by decide, show ((37 : UInt8) == 37) = true from by decide,
+      Bool.false_eq_true, if_false, if_true, hn1, beq_eq_false_iff_ne.mpr hd102,
+      beq_eq_false_iff_ne.mpr hd98, hd19, hchk, Bool.not_true, pure, Except.pure]
+  · exact hrel.push (.backref _) rfl rfl rfl rfl
+
+theorem item_esc (st : LuaPattern.PState) (d : UInt8) (r2 : List UInt8) (hd98 : d ≠ 98) (hd102 : d ≠ 102) (hdig : ¬ (LuaPattern.isDigit d = true))
+    (rr : ByteSet) (hr1 : getCharRange d = .ok rr) (c : Cls) (hc : ∀ x, rr.contains x = c.matches x) :
+    ItemStep ptn (37 :: d :: r2) (LuaPattern.parseQuant r2).2 st
+      { st with items := Item.char c (LuaPattern.parseQuant r2).1 :: st.items } := by
+  intro pb hl hcaret hrel
+  obtain ⟨hn0, hL0, hlt0⟩ := next_cons ptn hl
+  obtain ⟨hn1, hL1, hlt1⟩ := next_cons ptn hL0
+  simp only at hlt1
+  obtain ⟨pb2, g1, g2, g3, g4, g5, g6, g7, g8, g9⟩ := finishSingle_refines ptn rr
+    { pb with i := pb.i + 1 + 1 } (by simp; omega) (by simp)
+  rw [hL1] at g1 g2
+  have hd19 : isDigit19 d = false := by
+    unfold LuaPattern.isDigit at hdig
+    unfold isDigit19
+    simp only [Bool.and_eq_true, decide_eq_true_eq, not_and, ge_iff_le] at hdig
+    simp only [Bool.and_eq_false_iff, decide_eq_false_iff_not, ge_iff_le]
+    by_cases h49 : (49 : UInt8) ≤ d
+    · right
+      apply hdig
+      rw [UInt8.le_iff_toNat_le] at h49 ⊢
+      have : (48 : UInt8).toNat = 48 := rfl
+      have : (49 : UInt8).toNat = 49 := rfl
+      omega
+    · left; exact h49
+  refine ⟨emit pb2 ⟨rr, PatMatch.qType (LuaPattern.parseQuant r2).1⟩, ?_, by rw [L_emit]; exact g2,
+    by simp [emit] at g3 ⊢; omega, by simp [emit]; exact g4, ?_, by simp [emit]; exact g8⟩
+  · unfold getPatternItem
+    simp only [bind, Except.bind, hn0, show ((37 : UInt8) == 94) = false from by decide,
+      show ((37 : UInt8) == 36) = false from by decide, show ((37 : UInt8) == 40) = false from by decide,
+      show ((37 : UInt8) == 41) = false from by decide, show ((37 : UInt8) == 37) = true from by decide,
+      Bool.false_eq_true, if_false, if_true, hn1, beq_eq_false_iff_ne.mpr hd102,
+      beq_eq_false_iff_ne.mpr hd98, hd19, hr1]
+    exact g1
+  · refine hrel.push (.char c _ rr hc) ?_ ?_ ?_ ?_ <;> simp only [emit]
+    · rw [g5]
+    · exact g6
+    · exact g7
+    · exact g9
+
+theorem item_single (st : LuaPattern.PState) (f : Nat) (a : UInt8) (r rest' : List UInt8) (c : Cls) (hA : ¬ (a = 36 ∧ r = []))
+    (h40 : a ≠ 40) (h41 : a ≠ 41) (h37 : a ≠ 37) (hpc : LuaPattern.parseClass f (a :: r) = .ok (c, rest')) :
+    ItemStep ptn (a :: r) (LuaPattern.parseQuant rest').2 st
+      { st with items := Item.char c (LuaPattern.parseQuant rest').1 :: st.items } := by
+  intro pb hl hcaret hrel
+  have h36 : a = 36 → r ≠ [] := fun e hr => hA ⟨e, hr⟩
+  have hpi : pb.i ≤ ptn.size := by
+    have := L_length ptn pb; rw [hl] at this; simp at this; omega
+  obtain ⟨pb', set, g1, g2, g3, g4, g5, g6, g7, g8, g9, g10⟩ :=
+    single_refines ptn f (a :: r) c rest' hpc pb hl hpi
+  refine ⟨pb', ?_, g2, g3, g4, ?_, g9⟩
+  · rw [gpi_single ptn hl (fun e h0 => by
+      have := hcaret h0; rw [e] at this; exact this rfl) h36 h40 h41 h37]
+    exact g1
+  · exact hrel.push (.char c _ set g6) g5 g7 g8 g10
+
 /-- THE BUILDER AGAINST THE SPEC'S PARSER: the main loops -/
 theorem buildLoop_refines (maxSize : Nat) (hmax : ptn.size ≤ maxSize) :
     ∀ (fuelS : Nat) (l : List UInt8) (st stf : LuaPattern.PState),
-    LuaPattern.parseItems fuelS l st = .ok stf → (∀ it ∈ stf.items, AscItem it) →
+    LuaPattern.parseItems fuelS l st = .ok stf →
     (∀ it ∈ st.items, it ∈ stf.items) ∧
     ∀ (pb : PB) (fuelM sz : Nat), L ptn pb = l → (pb.i = 0 → l.head? ≠ some 94) → StRel st pb →
       ptn.size + 1 ≤ fuelM + pb.i → sz ≤ pb.i → pb.i ≤ ptn.size →
@@ -822,7 +1050,7 @@ theorem buildLoop_refines (maxSize : Nat) (hmax : ptn.size ≤ maxSize) :
   induction fuelS with
   | zero => intro l st stf h; rw [LuaPattern.parseItems.eq_1] at h; cases h
   | succ f ih =>
-    intro l st stf h hasc
+    intro l st stf h
     -- how every non-terminal case concludes: one Spec step to `(l', st')`, one builder item to `pb'`
     have finish : ∀ (l' : List UInt8) (st' : LuaPattern.PState), LuaPattern.parseItems f l' st' = .ok stf →
         (∀ it ∈ st.items, it ∈ st'.items) →
@@ -835,7 +1063,7 @@ theorem buildLoop_refines (maxSize : Nat) (hmax : ptn.size ≤ maxSize) :
           ∃ pbf, buildLoop ptn maxSize fuelM sz pb = .ok pbf ∧ StRel stf pbf ∧ pbf.anchorLeft = pb.anchorLeft ∧
             stf.stack = [] := by
       intro l' st' hspec hsub hitem
-      obtain ⟨hsub', hstep⟩ := ih l' st' stf hspec hasc
+      obtain ⟨hsub', hstep⟩ := ih l' st' stf hspec
       refine ⟨fun it hit => hsub' it (hsub it hit), ?_⟩
       intro pb fuelM sz hl hcaret hrel hf hsz hpi
       obtain ⟨pb', g1, g2, g3, g4, g5, g6⟩ := hitem pb hl hcaret hrel
@@ -905,25 +1133,7 @@ theorem buildLoop_refines (maxSize : Nat) (hmax : ptn.size ≤ maxSize) :
               · simp [hmaxc] at h
               · simp only [hmaxc, if_false] at h
                 refine finish r2 _ h (fun it hit => List.mem_cons_of_mem _ hit) ?_
-                intro pb hl hcaret hrel
-                obtain ⟨hn0, hL0, hlt0⟩ := next_cons ptn hl
-                obtain ⟨hn1, hL1, hlt1⟩ := next_cons ptn (pb := { pb with i := pb.i + 1, ciMax := pb.ciMax + 1 }) hL0
-                simp only at hlt1
-                have hci : pb.ciMax = st.ncap := hrel.ncap
-                have hlt10 : ¬ (pb.ciMax + 1 ≥ 10) := by
-                  unfold LuaPattern.maxCaptures at hmaxc; omega
-                refine ⟨emit { pb with i := pb.i + 1 + 1, ciMax := pb.ciMax + 1 }
-                  ⟨wordsSet (pb.ciMax + 1) 0, .startCapture⟩, ?_, hL1, by simp [emit]; omega, by simp [emit]; omega, ?_, rfl⟩
-                · unfold getPatternItem
-                  simp only [bind, Except.bind, hn0, show ((40 : UInt8) == 94) = false from by decide,
-                    show ((40 : UInt8) == 36) = false from by decide, show ((40 : UInt8) == 40) = true from by decide,
-                    Bool.false_eq_true, if_false, if_true, hlt10, hn1,
-                    show ((41 : UInt8) != 41) = false from by decide, pure, Except.pure]
-                · refine ⟨?_, by simp [emit, hci], by simp [emit]; exact hrel.stack, by simp [emit]; exact hrel.anchorEnd,
-                    by unfold LuaPattern.maxCaptures at hmaxc; simp; omega⟩
-                  simp only [emit, List.reverse_cons, Array.toList_push]
-                  rw [hci]
-                  exact RelL.snoc hrel.items (.pos (st.ncap + 1))
+                exact item_pos ptn st r2 hmaxc
             · -- `(` opening a capture
               rw [LuaPattern.parseItems.eq_6 _ _ _ (by intro e; cases e)
                 (by intro rest' e; injection e with e1 _; exact hb2 e1)] at h
@@ -931,30 +1141,7 @@ theorem buildLoop_refines (maxSize : Nat) (hmax : ptn.size ≤ maxSize) :
               · simp [hmaxc] at h
               · simp only [hmaxc, if_false] at h
                 refine finish (b2 :: r2) _ h (fun it hit => List.mem_cons_of_mem _ hit) ?_
-                intro pb hl hcaret hrel
-                obtain ⟨hn0, hL0, hlt0⟩ := next_cons ptn hl
-                obtain ⟨hn1, hL1, hlt1⟩ := next_cons ptn (pb := { pb with i := pb.i + 1, ciMax := pb.ciMax + 1 }) hL0
-                simp only at hlt1
-                have hci : pb.ciMax = st.ncap := hrel.ncap
-                have hlt10 : ¬ (pb.ciMax + 1 ≥ 10) := by
-                  unfold LuaPattern.maxCaptures at hmaxc; omega
-                refine ⟨emit { pb with i := pb.i + 1, ciMax := pb.ciMax + 1, cStack := pb.cStack.push (pb.ciMax + 1) }
-                  ⟨wordsSet (pb.ciMax + 1) 0, .startCapture⟩, ?_, hL0, by simp [emit], by simp [emit]; omega, ?_, rfl⟩
-                · unfold getPatternItem
-                  simp only [bind, Except.bind, hn0, show ((40 : UInt8) == 94) = false from by decide,
-                    show ((40 : UInt8) == 36) = false from by decide, show ((40 : UInt8) == 40) = true from by decide,
-                    Bool.false_eq_true, if_false, if_true, hlt10, hn1]
-                  have : (b2 != 41) = true := by simp [hb2]
-                  simp only [this, if_true]
-                  rw [back_ok (by simp)]
-                  simp [pure, Except.pure, emit]
-                · refine ⟨?_, by simp [emit, hci], ?_, by simp [emit]; exact hrel.anchorEnd,
-                    by unfold LuaPattern.maxCaptures at hmaxc; simp; omega⟩
-                  · simp only [emit, List.reverse_cons, Array.toList_push]
-                    rw [hci]
-                    exact RelL.snoc hrel.items (.open_ (st.ncap + 1))
-                  · simp only [emit, Array.toList_push, List.reverse_cons]
-                    rw [hrel.stack, hci]
+                exact item_open ptn st b2 r2 hb2 hmaxc
         · by_cases h41 : a = 41
           · -- `)`
             subst h41
@@ -965,27 +1152,7 @@ theorem buildLoop_refines (maxSize : Nat) (hmax : ptn.size ≤ maxSize) :
               rw [hstk] at h
               simp only at h
               refine finish r _ h (fun it hit => List.mem_cons_of_mem _ hit) ?_
-              intro pb hl hcaret hrel
-              obtain ⟨hn0, hL0, hlt0⟩ := next_cons ptn hl
-              have hcs : pb.cStack.toList = stk.reverse ++ [n] := by rw [hrel.stack, hstk]; simp
-              have hsz : pb.cStack.size = stk.length + 1 := by
-                have := congrArg List.length hcs; simpa using this
-              have hlast : pb.cStack[pb.cStack.size - 1]? = some n := by
-                rw [← Array.getElem?_toList, hcs, hsz]
-                simp
-              refine ⟨{ (emit { pb with i := pb.i + 1 } ⟨wordsSet n 0, .endCapture⟩) with
-                  cStack := pb.cStack.extract 0 (pb.cStack.size - 1) }, ?_, hL0, by simp [emit], by simp [emit]; omega, ?_, rfl⟩
-              · unfold getPatternItem
-                have hne : ¬ (pb.cStack.size = 0) := by omega
-                simp only [bind, Except.bind, hn0, show ((41 : UInt8) == 94) = false from by decide,
-                  show ((41 : UInt8) == 36) = false from by decide, show ((41 : UInt8) == 40) = false from by decide,
-                  show ((41 : UInt8) == 41) = true from by decide,
-                  Bool.false_eq_true, if_false, if_true, hne, hlast, pure, Except.pure]
-              · refine ⟨?_, by simp [emit]; exact hrel.ncap, ?_, by simp [emit]; exact hrel.anchorEnd, hrel.ncap_le⟩
-                · simp only [emit, List.reverse_cons, Array.toList_push]
-                  exact RelL.snoc hrel.items (.close n)
-                · simp only [Array.toList_extract, hsz]
-                  simp [hcs]
+              exact item_close ptn st n stk r hstk
           · by_cases h37 : a = 37
             · -- `%…`
               subst h37
@@ -1010,22 +1177,7 @@ theorem buildLoop_refines (maxSize : Nat) (hmax : ptn.size ≤ maxSize) :
                     | cons y r4 =>
                       rw [LuaPattern.parseItems.eq_8] at h
                       refine finish r4 _ h (fun it hit => List.mem_cons_of_mem _ hit) ?_
-                      intro pb hl hcaret hrel
-                      obtain ⟨hn0, hL0, hlt0⟩ := next_cons ptn hl
-                      obtain ⟨hn1, hL1, hlt1⟩ := next_cons ptn hL0
-                      obtain ⟨hn2, hL2, hlt2⟩ := next_cons ptn hL1
-                      obtain ⟨hn3, hL3, hlt3⟩ := next_cons ptn hL2
-                      simp only at hlt1 hlt2 hlt3
-                      refine ⟨emit { pb with i := pb.i + 1 + 1 + 1 + 1 } ⟨wordsSet x.toNat y.toNat, .balanced⟩, ?_, hL3,
-                        by simp [emit]; omega, by simp [emit]; omega, ?_, rfl⟩
-                      · unfold getPatternItem
-                        simp only [bind, Except.bind, hn0, show ((37 : UInt8) == 94) = false from by decide,
-                          show ((37 : UInt8) == 36) = false from by decide, show ((37 : UInt8) == 40) = false from by decide,
-                          show ((37 : UInt8) == 41) = false from by decide, show ((37 : UInt8) == 37) = true from by decide,
-                          Bool.false_eq_true, if_false, if_true, hn1,
-                          show ((98 : UInt8) == 102) = false from by decide, show ((98 : UInt8) == 98) = true from by decide,
-                          hn2, hn3, pure, Except.pure]
-                      · exact hrel.push (.bal x y) rfl rfl rfl rfl
+                      exact item_bal ptn st x y r4
                 · by_cases hd102 : d = 102
                   · -- `%f[set]`
                     subst hd102
@@ -1041,28 +1193,8 @@ theorem buildLoop_refines (maxSize : Nat) (hmax : ptn.size ≤ maxSize) :
                           obtain ⟨c, rest''⟩ := v
                           rw [hps] at h
                           simp only at h
-                          have hmem : Item.frontier c ∈ stf.items := (ih _ _ stf h hasc).1 _ List.mem_cons_self
-                          have hascc : AscCls c := hasc _ hmem
                           refine finish rest'' _ h (fun it hit => List.mem_cons_of_mem _ hit) ?_
-                          intro pb hl hcaret hrel
-                          obtain ⟨hn0, hL0, hlt0⟩ := next_cons ptn hl
-                          obtain ⟨hn1, hL1, hlt1⟩ := next_cons ptn hL0
-                          simp only at hlt1
-                          have hpc : LuaPattern.parseClass f (91 :: r3) = .ok (c, rest'') := by
-                            rw [LuaPattern.parseClass.eq_5]; exact hps
-                          obtain ⟨pb', set, g1, g2, g3, g4, g5⟩ := getCharClass_refines ptn f (91 :: r3) c rest'' hpc hascc
-                            { pb with i := pb.i + 1 + 1 } hL1 (by simp; omega)
-                          have hfr := getCharClass_frame ptn _ _ _ g1
-                          unfold Frame at hfr
-                          refine ⟨emit pb' ⟨set, .frontier⟩, ?_, by rw [L_emit]; exact g2, by simp [emit] at g3 ⊢; omega,
-                            by simp [emit]; exact g4, ?_, by simp [emit]; rw [hfr]⟩
-                          · unfold getPatternItem
-                            simp only [bind, Except.bind, hn0, show ((37 : UInt8) == 94) = false from by decide,
-                              show ((37 : UInt8) == 36) = false from by decide, show ((37 : UInt8) == 40) = false from by decide,
-                              show ((37 : UInt8) == 41) = false from by decide, show ((37 : UInt8) == 37) = true from by decide,
-                              Bool.false_eq_true, if_false, if_true, hn1,
-                              show ((102 : UInt8) == 102) = true from by decide, g1, pure, Except.pure]
-                          · refine hrel.push (.frontier c set g5) ?_ ?_ ?_ ?_ <;> (simp only [emit]; rw [hfr])
+                          exact item_frontier ptn st f r3 rest'' c hps
                       · rw [LuaPattern.parseItems.eq_11 _ _ _ (by intro r' e; injection e with e1 _; exact hx91 e1)] at h
                         cases h
                   · rw [LuaPattern.parseItems.eq_12 _ _ _ _ hd98 hd102] at h
@@ -1073,47 +1205,7 @@ theorem buildLoop_refines (maxSize : Nat) (hmax : ptn.size ≤ maxSize) :
                       · rw [if_pos hbad] at h; cases h
                       · rw [if_neg hbad] at h
                         refine finish r2 _ h (fun it hit => List.mem_cons_of_mem _ hit) ?_
-                        intro pb hl hcaret hrel
-                        obtain ⟨hn0, hL0, hlt0⟩ := next_cons ptn hl
-                        obtain ⟨hn1, hL1, hlt1⟩ := next_cons ptn hL0
-                        simp only at hlt1
-                        have hd19 : isDigit19 d = true := by
-                          unfold LuaPattern.isDigit at hdig
-                          unfold isDigit19
-                          simp only [Bool.and_eq_true, decide_eq_true_eq, ge_iff_le] at hdig ⊢
-                          refine ⟨?_, hdig.2⟩
-                          have hn0' : ¬ ((d - 48).toNat = 0) := fun e => hbad (Or.inl e)
-                          rw [UInt8.le_iff_toNat_le] at hdig ⊢
-                          have h48 := hdig.1
-                          have hsub : (d - 48).toNat = d.toNat - 48 := by
-                            rw [UInt8.toNat_sub_of_le _ _ (UInt8.le_iff_toNat_le.mpr h48)]; rfl
-                          have : (48 : UInt8).toNat = 48 := rfl
-                          have : (49 : UInt8).toNat = 49 := rfl
-                          omega
-                        have hchk : checkCapture { pb with i := pb.i + 1 + 1 } (d - 48).toNat = true := by
-                          unfold checkCapture
-                          have h1 : ¬ ((d - 48).toNat > pb.ciMax) := by
-                            rw [hrel.ncap]; exact fun e => hbad (Or.inr (Or.inl e))
-                          simp only [h1, if_false]
-                          have h2 : st.stack.contains (d - 48).toNat = false := by
-                            cases hc : st.stack.contains (d - 48).toNat with
-                            | false => rfl
-                            | true => exact absurd (Or.inr (Or.inr hc)) hbad
-                          have : pb.cStack.contains (d - 48).toNat = st.stack.contains (d - 48).toNat := by
-                            rw [← Array.contains_toList, hrel.stack]
-                            simp [List.contains_eq_mem, List.mem_reverse]
-                          have hcf : pb.cStack.contains (d - 48).toNat = false := by rw [this, h2]
-                          simp only [Bool.not_eq_eq_eq_not, Bool.not_true]
-                          exact hcf
-                        refine ⟨emit { pb with i := pb.i + 1 + 1 } ⟨wordsSet (d - 48).toNat 0, .capture⟩, ?_, hL1,
-                          by simp [emit]; omega, by simp [emit]; omega, ?_, rfl⟩
-                        · unfold getPatternItem
-                          simp only [bind, Except.bind, hn0, show ((37 : UInt8) == 94) = false from by decide,
-                            show ((37 : UInt8) == 36) = false from by decide, show ((37 : UInt8) == 40) = false from by decide,
-                            show ((37 : UInt8) == 41) = false from by decide, show ((37 : UInt8) == 37) = true from by decide,
-                            Bool.false_eq_true, if_false, if_true, hn1, beq_eq_false_iff_ne.mpr hd102,
-                            beq_eq_false_iff_ne.mpr hd98, hd19, hchk, Bool.not_true, pure, Except.pure]
-                        · exact hrel.push (.backref _) rfl rfl rfl rfl
+                        exact item_backref ptn st d r2 hd98 hd102 hdig hbad
                     · -- `%x` as a single-character class
                       simp only [hdig, Bool.false_eq_true, if_false] at h
                       rw [LuaPattern.parseClass.eq_4] at h
@@ -1131,40 +1223,7 @@ theorem buildLoop_refines (maxSize : Nat) (hmax : ptn.size ≤ maxSize) :
                           | inr bx => exact ⟨.lit bx, fun x => by rw [hr2]; rfl, h⟩
                         obtain ⟨c, hc, hk⟩ := key
                         refine finish _ _ hk (fun it hit => List.mem_cons_of_mem _ hit) ?_
-                        intro pb hl hcaret hrel
-                        obtain ⟨hn0, hL0, hlt0⟩ := next_cons ptn hl
-                        obtain ⟨hn1, hL1, hlt1⟩ := next_cons ptn hL0
-                        simp only at hlt1
-                        obtain ⟨pb2, g1, g2, g3, g4, g5, g6, g7, g8, g9⟩ := finishSingle_refines ptn rr
-                          { pb with i := pb.i + 1 + 1 } (by simp; omega) (by simp)
-                        rw [hL1] at g1 g2
-                        have hd19 : isDigit19 d = false := by
-                          unfold LuaPattern.isDigit at hdig
-                          unfold isDigit19
-                          simp only [Bool.and_eq_true, decide_eq_true_eq, not_and, ge_iff_le] at hdig
-                          simp only [Bool.and_eq_false_iff, decide_eq_false_iff_not, ge_iff_le]
-                          by_cases h49 : (49 : UInt8) ≤ d
-                          · right
-                            apply hdig
-                            rw [UInt8.le_iff_toNat_le] at h49 ⊢
-                            have : (48 : UInt8).toNat = 48 := rfl
-                            have : (49 : UInt8).toNat = 49 := rfl
-                            omega
-                          · left; exact h49
-                        refine ⟨emit pb2 ⟨rr, PatMatch.qType (LuaPattern.parseQuant r2).1⟩, ?_, by rw [L_emit]; exact g2,
-                          by simp [emit] at g3 ⊢; omega, by simp [emit]; exact g4, ?_, by simp [emit]; exact g8⟩
-                        · unfold getPatternItem
-                          simp only [bind, Except.bind, hn0, show ((37 : UInt8) == 94) = false from by decide,
-                            show ((37 : UInt8) == 36) = false from by decide, show ((37 : UInt8) == 40) = false from by decide,
-                            show ((37 : UInt8) == 41) = false from by decide, show ((37 : UInt8) == 37) = true from by decide,
-                            Bool.false_eq_true, if_false, if_true, hn1, beq_eq_false_iff_ne.mpr hd102,
-                            beq_eq_false_iff_ne.mpr hd98, hd19, hr1]
-                          exact g1
-                        · refine hrel.push (.char c _ rr hc) ?_ ?_ ?_ ?_ <;> simp only [emit]
-                          · rw [g5]
-                          · exact g6
-                          · exact g7
-                          · exact g9
+                        exact item_esc ptn st d r2 hd98 hd102 hdig rr hr1 c hc
             · -- a single-character item
               have h36 : a = 36 → r ≠ [] := fun e hr => hA ⟨e, hr⟩
               rw [LuaPattern.parseItems.eq_13 _ _ _ (by intro e; cases e)
@@ -1180,31 +1239,19 @@ theorem buildLoop_refines (maxSize : Nat) (hmax : ptn.size ≤ maxSize) :
                 obtain ⟨c, rest'⟩ := v
                 rw [hpc] at h
                 simp only at h
-                have hmem : Item.char c (LuaPattern.parseQuant rest').1 ∈ stf.items :=
-                  (ih _ _ stf h hasc).1 _ List.mem_cons_self
-                have hascc : AscCls c := hasc _ hmem
                 refine finish (LuaPattern.parseQuant rest').2 _ h (fun it hit => List.mem_cons_of_mem _ hit) ?_
-                intro pb hl hcaret hrel
-                have hpi : pb.i ≤ ptn.size := by
-                  have := L_length ptn pb; rw [hl] at this; simp at this; omega
-                obtain ⟨pb', set, g1, g2, g3, g4, g5, g6, g7, g8, g9, g10⟩ :=
-                  single_refines ptn f (a :: r) c rest' hpc hascc pb hl hpi
-                refine ⟨pb', ?_, g2, g3, g4, ?_, g9⟩
-                · rw [gpi_single ptn hl (fun e h0 => by
-                    have := hcaret h0; rw [e] at this; exact this rfl) h36 h40 h41 h37]
-                  exact g1
-                · exact hrel.push (.char c _ set g6) g5 g7 g8 g10
+                exact item_single ptn st f a r rest' c hA h40 h41 h37 hpc
 
 theorem StRel.init (pb : PB) (h1 : pb.items = #[]) (h2 : pb.ciMax = 0) (h3 : pb.cStack = #[]) (h4 : pb.anchorRight = false) :
     StRel { items := [], ncap := 0, stack := [], anchorEnd := false } pb := by
   refine ⟨?_, h2, by rw [h3]; rfl, h4, by simp⟩
   rw [h1]; exact .nil
 
-/-- BUILD ⊑ PARSE: whenever the Spec parses a pattern string and no set of it contains a descending range, the
+/-- BUILD ⊑ PARSE: whenever the Spec parses a pattern string, the
     builder accepts it and produces items related (`ItemRel`) one by one to the parsed items, with the same anchors
     and capture count -/
 theorem build_refines_parse (pat : LuaPattern.Pat) (hparse : LuaPattern.parse ptn.toList = .ok pat)
-    (hasc : ∀ it ∈ pat.items, AscItem it) (hsize : ptn.size ≤ Generated.ByteSetTable.maxPatternSize) :
+    (hsize : ptn.size ≤ Generated.ByteSetTable.maxPatternSize) :
     ∃ P, build ptn = .ok P ∧ PatMatch.RelL pat.items P.items.toList ∧ P.captureCount = pat.ncap ∧
       P.startAnchor = pat.anchorStart ∧ P.endAnchor = pat.anchorEnd ∧ pat.ncap ≤ 9 := by
   unfold LuaPattern.parse at hparse
@@ -1234,8 +1281,7 @@ theorem build_refines_parse (pat : LuaPattern.Pat) (hparse : LuaPattern.parse pt
     | ok stf =>
       rw [hpi] at hparse
       injection hparse with hparse; subst hparse
-      have hasc' : ∀ it ∈ stf.items, AscItem it := fun it hit => hasc it (List.mem_reverse.mpr hit)
-      obtain ⟨_, hstep⟩ := buildLoop_refines ptn _ hsize _ _ _ stf hpi hasc'
+      obtain ⟨_, hstep⟩ := buildLoop_refines ptn _ hsize _ _ _ stf hpi
       have hl0 : L ptn {} = 94 :: r := by rw [hL0, hp]
       obtain ⟨hn0, hL1, hlt0⟩ := next_cons ptn hl0
       have hlen : ptn.size = r.length + 1 := by
@@ -1267,8 +1313,7 @@ theorem build_refines_parse (pat : LuaPattern.Pat) (hparse : LuaPattern.parse pt
     | ok stf =>
       rw [hpi] at hparse'
       injection hparse' with hparse'; subst hparse'
-      have hasc' : ∀ it ∈ stf.items, AscItem it := fun it hit => hasc it (List.mem_reverse.mpr hit)
-      obtain ⟨_, hstep⟩ := buildLoop_refines ptn _ hsize _ _ _ stf hpi hasc'
+      obtain ⟨_, hstep⟩ := buildLoop_refines ptn _ hsize _ _ _ stf hpi
       obtain ⟨pbf, k1, k2, k3, k4⟩ := hstep {} (ptn.size + 1) 0 hL0
         (fun _ hh => by
           cases hl : ptn.toList with
